@@ -31,6 +31,13 @@ claim('C08',
       'Oracle: spec/yaml11_types.py = the YAML 1.1 type repository restricted to the documented dialect (deviations D1-D4 listed there). Floats are exact rationals under symbolic execution (rounding outside the claim; tolerance on replay). repr(float)/isoformat shapes are modelled as languages. Translator validated against re on the repository scalars on every run. Known findings K1-K4.',
       technique='SMT regular-language queries on the live patterns (z3 seq/re theory) + bounded symbolic execution of resolver/constructors (CrossHair + z3)')
 
+claim('C13',
+      'The real Composer is driven by every grammatical event stream that up to 4 (5) instructions of 12 kinds can generate (anchors a/b on scalars, sequences and mappings, aliases, nesting), followed by a second document that aliases the first one\'s anchor; the real constructors of the Safe, Full and Unsafe loaders are driven by node graphs over 2 (3) slots of 6-7 kinds whose child pointers are solver variables (sharing, self and mutual reference, containers and tuples in key position). Verdicts are compared with an independent anchor-table model and a two-phase reference builder by identity-preserving graph isomorphism; every cell closes its path tree.',
+      'Py leg only (the C composer cannot be rebuilt or executed symbolically here). Event source and node graphs are built directly by the harness; oracles ref_compose/ref_build live in harness/c13.py. Fixed finding F4 (tuple key holding a list) was found here.')
+claim('C14',
+      'The real flatten_mapping / construct_mapping / construct_yaml_set / omap / pairs are executed on node graphs whose shape is chosen by solver variables: a top mapping of 2 (3) entries of 11 kinds (plain and duplicate keys, single merges, list merges in both orders, repeated merge keys, quoted <<, = key, ill-shaped merge values, unhashable key), a merge source with 2 entries of 4 kinds including a nested merge, a sibling mapping sharing that source, the source also constructed on its own in 3 orders. The result is compared with a non-mutating reference evaluator of the YAML 1.1 merge rules; set/omap/pairs nodes of 8 shapes each; every cell closes its path tree.',
+      'Nodes are built directly (the second back-end feeds the same constructor code). Oracle: ref_map() in harness/c14.py. Values are distinct concrete ints so that provenance is identifiable.')
+
 NA = {
  'C06': 'every comparison is between two artefacts of libyaml (a compiled system .so behind a Cython binding that cannot be rebuilt offline); symbolic values are realised at the extension boundary, so no solver variable survives into the code under comparison',
  'C20': 'asymptotic growth over input sizes: bounded symbolic execution cannot observe doubling and an unbounded cost argument is proof-assistant work; the anchored look-ahead mechanisms are decided as one-step invariants under C09/C18',
